@@ -5,7 +5,7 @@ Umbrella of the agreement proofs "hand model == definitions translated from the 
 `Qmc.PureFnsAgreeCluster` — names unchanged):
 
   Prelude IsingHam Tempering Rvb Cluster ClusterIsing RefreshIsing RefreshGeneric Cutoff EnergyIsing EnergyGeneric
-  Diag HeatBath HeatBathIsing Convert Size
+  Diag HeatBath HeatBathIsing Convert Size Classical Stepper BondContainer Autocorr Loop
 
 so that a translated function that stops agreeing takes down only its own group; `checks/pure_fns.py` builds and audits,
 per check, only the groups relevant to that check's property (design_notes/Translator.md).  This umbrella is listed in some
